@@ -750,6 +750,106 @@ fn determinism_recheck(ctx: &Arc<Ctx>, gen: Gen, seed: u64, samples: &BTreeMap<u
     (n, bad)
 }
 
+/// S5: rows of the likely-subtags tables looked up through the real `maximize` on a simulated
+/// big-endian machine (the `becheck` crate under Miri for s390x). The table integers spell ASCII
+/// little-endian and are turned into subtags by unchecked constructors: whether the bytes those
+/// see are well formed depends on the target's byte order as much as on the integers.
+struct BeReport {
+    status: String,
+    rows: u64,
+    wrong: u64,
+    mismatches: Vec<String>,
+    wall_s: f64,
+}
+
+fn be_check(dir: &Path, stride: u64) -> BeReport {
+    let t0 = Instant::now();
+    let mut rep = BeReport {
+        status: String::new(),
+        rows: 0,
+        wrong: 0,
+        mismatches: vec![],
+        wall_s: 0.0,
+    };
+    if !dir.join("Cargo.toml").exists() {
+        rep.status = format!("skipped: {} not found", dir.display());
+        return rep;
+    }
+    let out = std::process::Command::new("cargo")
+        .args(["+nightly", "miri", "run", "--offline", "--quiet", "--target", "s390x-unknown-linux-gnu", "--"])
+        .arg(stride.to_string())
+        .current_dir(dir)
+        .env_remove("RUSTFLAGS")
+        .env_remove("MIRIFLAGS")
+        .env_remove("CARGO_TARGET_DIR")
+        .env("CARGO_NET_OFFLINE", "true")
+        .output();
+    rep.wall_s = t0.elapsed().as_secs_f64();
+    let out = match out {
+        Ok(o) => o,
+        Err(e) => {
+            rep.status = format!("skipped: cannot run cargo miri: {}", e);
+            return rep;
+        }
+    };
+    let text = String::from_utf8_lossy(&out.stdout).into_owned();
+    let mut summary = None;
+    for l in text.lines() {
+        if l.starts_with("BE-MISMATCH ") {
+            rep.mismatches.push(l.to_string());
+        } else if let Some(rest) = l.strip_prefix("BE-ROWS ") {
+            summary = Some(rest.to_string());
+        }
+    }
+    match summary {
+        Some(s) => {
+            for kv in s.split_whitespace() {
+                if let Some(v) = kv.strip_prefix("looked_up=") {
+                    rep.rows = v.parse().unwrap_or(0);
+                }
+                if let Some(v) = kv.strip_prefix("wrong=") {
+                    rep.wrong = v.parse().unwrap_or(0);
+                }
+            }
+            rep.status = if s.contains("endian=big") { "ok".into() } else { format!("skipped: the interpreter did not emulate a big-endian target ({})", s) };
+            if !s.contains("endian=big") {
+                rep.wrong = 0;
+                rep.mismatches.clear();
+            }
+        }
+        None => {
+            let err = String::from_utf8_lossy(&out.stderr);
+            let why = err.lines().rev().find(|l| !l.trim().is_empty()).unwrap_or("no output").to_string();
+            // Miri itself stopping the program (undefined behaviour in the lookup on this target)
+            if err.contains("Undefined Behavior") {
+                rep.wrong = 1;
+                rep.mismatches.push(format!("BE-MISMATCH the interpreter stopped the lookup: {}", err.lines().find(|l| l.contains("Undefined Behavior")).unwrap_or("")));
+                rep.status = "ok".into();
+            } else {
+                rep.status = format!("skipped: big-endian interpreter run unavailable ({})", why.chars().take(160).collect::<String>());
+            }
+        }
+    }
+    rep
+}
+
+fn be_violations(rep: &BeReport) -> Vec<Violation> {
+    if rep.wrong == 0 {
+        return vec![];
+    }
+    let first = rep.mismatches.first().cloned().unwrap_or_default();
+    let table = first.split_whitespace().nth(1).and_then(|t| t.split('[').next()).unwrap_or("-").to_string();
+    vec![Violation {
+        class: "S5".into(),
+        table: table.clone(),
+        signature: format!("S5:{}:big-endian-lookup", table),
+        detail: format!(
+            "on a big-endian target (Miri, s390x) {} of {} looked-up rows do not come back from likelysubtags::maximize as the well-formed subtags the table encodes: the stored integers do not decode to well-formed subtags there, which the unchecked constructors rely on; first: {}",
+            rep.wrong, rep.rows, first
+        ),
+    }]
+}
+
 /// Run the repository's real generator binary (built by run.sh without the hook cfg, no seam, real
 /// file system, real RandomState) once; returns its stdout, or an error text.
 fn real_rerun(bin_dir: &Path, cwd: &Path, gen: Gen) -> Result<String, String> {
@@ -1059,6 +1159,10 @@ fn cmd_check(a: &Args) -> i32 {
         println!("NOTE: no row of {} is reachable through likelysubtags::maximize (not attributed to C18: the lookup, not the table order, is at fault)", t);
     }
     let ctx = Arc::new(build_ctx(&rf, image.clone(), comp));
+    // S5 runs in the background while the simulation batches run
+    let be_dir = a.opts.get("becheck").map(PathBuf::from);
+    let be_stride = opt_u64(a, "be-stride", if tier == "quick" { 400 } else { 24 });
+    let be_thread = be_dir.clone().map(|d| std::thread::spawn(move || be_check(&d, be_stride)));
 
     // ---- simulation batches
     // one run of each program under the all-default schedule on this thread first: settles, before
@@ -1258,6 +1362,17 @@ fn cmd_check(a: &Args) -> i32 {
         }
     }
 
+    let be = match be_thread {
+        Some(t) => t.join().unwrap_or_else(|_| harness_error("the big-endian check thread panicked")),
+        None => BeReport {
+            status: "not requested".into(),
+            rows: 0,
+            wrong: 0,
+            mismatches: vec![],
+            wall_s: 0.0,
+        },
+    };
+    println!("big-endian machine (Miri, s390x): {} rows looked up, {} wrong ({}, {:.1}s)", be.rows, be.wrong, be.status, be.wall_s);
     // ---- collect violations: static first, then per-run (one replay per violation class)
     let mut reported: Vec<(Violation, PathBuf)> = vec![];
     let mut known_lines: Vec<String> = vec![];
@@ -1269,6 +1384,14 @@ fn cmd_check(a: &Args) -> i32 {
         }
         let p = write_replay(&replay_dir, &ctx, "static", None, seed, None, &tier, v, &[], json!(null));
         reported.push((v.clone(), p));
+    }
+    for v in be_violations(&be) {
+        if let Some((_s, what)) = is_known(&v) {
+            known_lines.push(format!("KNOWN-FINDING: property={} {} ({})", PROPERTY, v.signature, what));
+            continue;
+        }
+        let p = write_replay(&replay_dir, &ctx, "static-be", None, seed, None, &tier, &v, &[], json!({"becheck": be_dir.as_ref().map(|d| d.display().to_string()), "stride": be_stride}));
+        reported.push((v, p));
     }
     let mut classes_done_global: BTreeSet<String> = BTreeSet::new();
     for (batch, gen, cov) in [(Batch::Cover, Gen::Layout, &cvr), (Batch::Random, Gen::Layout, &lay), (Batch::Random, Gen::Likely, &lik)] {
@@ -1544,6 +1667,14 @@ fn cmd_check(a: &Args) -> i32 {
                 "static_violations": st.violations.len(),
                 "reference_packer": if oracle::init_packer(&ctx.image).fallback { "library conversions (own little-endian packer disagrees with the library)" } else { "own little-endian ASCII packer (agrees with the library's conversions on every CLDR subtag)" },
             },
+            "big_endian_machine": {
+                "note": "S5: rows of the six likely-subtags tables (every k-th, first and last of each) looked up through the real likelysubtags::maximize under Miri for s390x-unknown-linux-gnu and compared, as text, with the row decoded by shift and mask; the tables' integers are byte-order-dependent input of unsafe unchecked constructors",
+                "status": be.status,
+                "stride": be_stride,
+                "rows_looked_up": be.rows,
+                "rows_wrong": be.wrong,
+                "wall_s": be.wall_s,
+            },
             "real_process_reruns": {
                 "note": "fidelity cross-check of the simulator: the repository's generator binaries built without the hook and run as real processes (real file system order, real RandomState); their output must equal the compiled tables like every simulated run's",
                 "runs": real_done,
@@ -1817,6 +1948,15 @@ fn cmd_replay(a: &Args) -> i32 {
     };
     let found: Vec<Violation> = match j["kind"].as_str() {
         Some("static") => oracle::static_checks(&comp, &rf).violations,
+        Some("static-be") => {
+            let dir = PathBuf::from(j["minimisation"]["becheck"].as_str().unwrap_or("/verif/becheck"));
+            let stride = j["minimisation"]["stride"].as_u64().unwrap_or(400);
+            let rep = be_check(&dir, stride);
+            if !quiet {
+                println!("big-endian machine: {} rows looked up, {} wrong ({})", rep.rows, rep.wrong, rep.status);
+            }
+            be_violations(&rep)
+        }
         Some("real") => {
             let gen = Gen::parse(j["generator"].as_str().unwrap_or("")).unwrap_or_else(|| harness_error("replay file: bad generator"));
             let dir = PathBuf::from(j["minimisation"]["real_bins"].as_str().unwrap_or("/verif/gensim/target/realbins/debug"));
